@@ -55,36 +55,59 @@ fn generic_key(stem: &str, got: &LibResult) -> String {
     }
 }
 
-/// Strip white space (ISO 32000-1 Table 1) — used only to recognise a known-defect signature.
-fn strip_ws(d: &[u8]) -> Vec<u8> {
-    d.iter().copied().filter(|&b| !matches!(b, 0 | 9 | 10 | 12 | 13 | 32)).collect()
-}
+const KEY_A85_LT: &str = "C07/ascii85-leading-lt-swallows-next-character";
 
-/// Known-defect signatures of a single ASCII85 stage (KF-C07-2): the decoder looks for an
-/// optional `<~` prefix and, when the first character is `<` but the second is not `~`,
-/// forgets to put the second character back. Recognised only when the output is exactly the
-/// reference decoding of the stream with its second character removed.
-fn a85_known_signature(raw: &[u8], got: &LibResult) -> Option<&'static str> {
-    let s = strip_ws(raw);
-    if s.len() >= 2 && s[0] == b'<' && s[1] != b'~' {
-        let mut t = s.clone();
-        t.remove(1);
-        match (rf::ascii85_decode(&t), got) {
-            (Ok(w), Ok(Ok(g))) if w == *g => return Some("C07/ascii85-leading-lt-swallows-next-character"),
-            (Err(_), Ok(Err(_))) => return Some("C07/ascii85-leading-lt-swallows-next-character"),
-            _ => {}
-        }
+/// Known-defect signature KF-C07-2. The library's ASCII85 decoder looks for an optional `<~`
+/// prefix and, when the first character is `<` but the second is not `~`, forgets to put the
+/// second character back. This is the reference decoding of `raw` through `fs` with exactly that
+/// loss modelled at every ASCII85 stage; `None` when no ASCII85 stage ever sees `<x…`.
+fn decode_with_lt_defect(fs: &[F], raw: &[u8]) -> Option<Result<Vec<u8>, String>> {
+    let mut applied = false;
+    let mut cur: Result<Vec<u8>, String> = Ok(raw.to_vec());
+    for f in fs {
+        cur = match cur {
+            Err(e) => Err(e),
+            Ok(d) => match f {
+                F::Flate => rf::flate_decode(&d),
+                F::Lzw1 => rf::lzw_decode(&d, true),
+                F::Lzw0 => rf::lzw_decode(&d, false),
+                F::AHx => rf::asciihex_decode(&d),
+                F::RL => rf::runlength_decode(&d),
+                F::A85 => {
+                    let mut t: Vec<u8> = d.iter().copied().filter(|b| !matches!(b, 9 | 10 | 12 | 13 | 32)).collect();
+                    if t.len() >= 2 && t[0] == b'<' && t[1] != b'~' {
+                        t.remove(1);
+                        applied = true;
+                    }
+                    rf::ascii85_decode(&t)
+                }
+            },
+        };
     }
-    None
+    if applied { Some(cur) } else { None }
 }
 
+/// Only the exact signature counts: the output equals the modelled decoding (or the damaged
+/// intermediate data is rejected / mangled by a later stage without a panic).
+fn is_lt_defect(fs: &[F], raw: &[u8], got: &LibResult) -> bool {
+    match (decode_with_lt_defect(fs, raw), got) {
+        (Some(Ok(w)), Ok(Ok(g))) => w == *g,
+        (Some(Err(_)), Ok(_)) => true,
+        _ => false,
+    }
+}
+
+fn key_chain(fs: &[F], raw: &[u8], got: &LibResult) -> String {
+    if is_lt_defect(fs, raw, got) {
+        KEY_A85_LT.to_string()
+    } else if fs.len() == 1 {
+        generic_key(fs[0].short(), got)
+    } else {
+        generic_key("chain", got)
+    }
+}
 fn key_single(f: F, raw: &[u8], got: &LibResult) -> String {
-    if f == F::A85 {
-        if let Some(k) = a85_known_signature(raw, got) {
-            return k.to_string();
-        }
-    }
-    generic_key(f.short(), got)
+    key_chain(&[f], raw, got)
 }
 
 fn all_strings(alpha: &[u8], max_len: usize) -> Vec<Vec<u8>> {
@@ -127,6 +150,17 @@ pub fn run(rep: &mut Report) {
     rep.assume("streams are built as PdfStream{dict,data} and decoded with PdfStream::decode(&ParseOptions::default()) — the entry point all reader paths use");
     rep.assume("EOD-less ASCIIHex/ASCII85/RunLength data is outside the standard: Ok(original) and Err are both accepted there, only Ok(other bytes) is flagged");
     rep.assume("TIFF predictor 2 test data has zero padding bits at the end of each row (the standard does not say what a decoder does with them)");
+
+    // the miniz streams produced by util::filt::flate_fast must be readable by an independent inflater
+    for (k, n) in [(0usize, 0usize), (1, 1), (3, 700), (0, 70000), (2, 5000)] {
+        for level in [0u32, 6, 9] {
+            let d = pattern(k, n);
+            if rf::flate_decode(&flate_fast(&d, level)).ok().as_deref() != Some(&d[..]) {
+                rep.machinery_error(format!("flate_fast(level {level}) output of pattern {k} x {n} is not decoded back by zune-inflate"));
+                return;
+            }
+        }
+    }
 
     single_small(rep);
     single_first_bytes(rep, thorough);
@@ -281,14 +315,7 @@ fn chains(rep: &mut Report) {
         let cl = classify(&got, data);
         c.outcome(vx::h64(&(cl, vx::hbytes(data))));
         if cl != Class::Match {
-            // a chain whose first stage is ASCII85 sees the raw bytes: same known signature
-            let key = if n == 1 {
-                key_single(fs[0], &raw, &got)
-            } else if fs[0] == F::A85 && chain_a85_signature(&fs, &raw, &got) {
-                "C07/ascii85-leading-lt-swallows-next-character".to_string()
-            } else {
-                generic_key("chain", &got)
-            };
+            let key = key_chain(&fs, &raw, &got);
             c.fail(
                 key,
                 format!("chain={:?} data={} encoded={} got={}", fs.iter().map(|f| f.short()).collect::<Vec<_>>(), vx::show_bytes(data, 24), vx::show_bytes(&raw, 48), short_err(&got)),
@@ -296,35 +323,6 @@ fn chains(rep: &mut Report) {
         }
         c.sample(json!({"chain": fs.iter().map(|f| f.short()).collect::<Vec<_>>(), "data_len": data.len(), "encoded_len": raw.len()}));
     });
-}
-
-/// Known signature KF-C07-2 inside a chain: the first stage is ASCII85, its input starts with
-/// `<x`; the library's result equals the reference decoding of the chain with that second
-/// character removed (or both fail).
-fn chain_a85_signature(fs: &[F], raw: &[u8], got: &LibResult) -> bool {
-    let s = strip_ws(raw);
-    if !(s.len() >= 2 && s[0] == b'<' && s[1] != b'~') {
-        return false;
-    }
-    let mut t = s;
-    t.remove(1);
-    let mut cur: Result<Vec<u8>, String> = Ok(t);
-    for f in fs {
-        cur = cur.and_then(|d| match f {
-            F::Flate => rf::flate_decode(&d),
-            F::Lzw1 => rf::lzw_decode(&d, true),
-            F::Lzw0 => rf::lzw_decode(&d, false),
-            F::AHx => rf::asciihex_decode(&d),
-            F::A85 => rf::ascii85_decode(&d),
-            F::RL => rf::runlength_decode(&d),
-        });
-    }
-    match (cur, got) {
-        (Ok(w), Ok(Ok(g))) => w == *g,
-        // the damaged intermediate data is garbage for the next stage: any non-panic answer
-        (Err(_), Ok(_)) => true,
-        _ => false,
-    }
 }
 
 // ------------------------------------------------------------------------------------------
@@ -388,17 +386,17 @@ fn ascii_decor(rep: &mut Report) {
         match (cl, keep_eod) {
             (Class::Match, _) => {}
             (Class::Rejected, false) => {} // EOD-less data: outside the standard, an error is acceptable
-            (_, false) => c.fail(format!("{}-without-eod", key_single(f, &raw, &got)), detail()),
+            (_, false) => {
+                let k = key_single(f, &raw, &got);
+                c.fail(if k == KEY_A85_LT { k } else { format!("{k}-without-eod") }, detail())
+            }
             (_, true) => {
                 let uses_nul = brk.map(|(s, _)| s == b"\x00").unwrap_or(false);
                 let key = if uses_nul && cl == Class::Rejected {
                     // exact known signature (KF-C07-3): NUL (white space per ISO 32000-1 Table 1) is rejected
                     format!("C07/{}-rejects-nul-as-white-space", f.short())
                 } else if brk.is_some() || !lead.is_empty() || !trail.is_empty() {
-                    match a85_known_signature(&raw, &got) {
-                        Some(k) if f == F::A85 => k.to_string(),
-                        _ => format!("{}-with-white-space", generic_key(f.short(), &got)),
-                    }
+                    if is_lt_defect(&[f], &raw, &got) { KEY_A85_LT.to_string() } else { format!("{}-with-white-space", generic_key(f.short(), &got)) }
                 } else {
                     key_single(f, &raw, &got)
                 };
@@ -495,6 +493,8 @@ fn ccitt(rep: &mut Report, thorough: bool) {
     rep.note("ccitt", json!(format!("K=-1 (T.6, EndOfBlock true) through fax::encoder; K=0 (T.4 1-D, EndOfBlock false, with and without EndOfLine) from fax's code tables; K>0 (mixed 2-D) dropped: the fax crate has no encoder for it; EncodedByteAlign dropped; every bitmap for Columns*rows <= {max_all_pixels}, 6 fixed bitmaps above")));
     let cols: Vec<usize> = (1..=16).chain([64]).collect();
     const MODES: [&str; 3] = ["g4", "g3-1d", "g3-1d-eol"];
+    // both one-dimensional modes share their finding keys (same placeholder code tables)
+    const KMODES: [&str; 3] = ["g4", "g3-1d", "g3-1d"];
     rep.explore("ccitt", Explore::full(), |c: &mut Ctx| {
         let mode = c.choose("mode", 3);
         let black_is_1 = c.flag("BlackIs1");
@@ -558,7 +558,7 @@ fn ccitt(rep: &mut Report, thorough: bool) {
             if cl != Class::Match {
                 let rb = (columns + 7) / 8;
                 let key = match (&got, mode) {
-                    (Err(p), _) => format!("C07/ccitt-{}-panic@{}", MODES[mode], vx::panic_site(p)),
+                    (Err(p), _) => format!("C07/ccitt-{}-panic@{}", KMODES[mode], vx::panic_site(p)),
                     // exact known signature (KF-C07-4): the Group 4 "decoder" hands back the encoded
                     // bytes cut or zero-padded to Rows * ceil(Columns/8)
                     (Ok(Ok(g)), 0) if {
@@ -566,9 +566,9 @@ fn ccitt(rep: &mut Report, thorough: bool) {
                         stub.resize(rb * rows, 0);
                         *g == stub
                     } => "C07/ccitt-g4-returns-the-encoded-bytes".to_string(),
-                    (Ok(Ok(g)), _) if g.len() != want.len() => format!("C07/ccitt-{}-wrong-length", MODES[mode]),
-                    (Ok(Ok(_)), _) => format!("C07/ccitt-{}-wrong-pixels", MODES[mode]),
-                    (Ok(Err(_)), _) => format!("C07/ccitt-{}-rejects-reference-encoding", MODES[mode]),
+                    (Ok(Ok(g)), _) if g.len() != want.len() => format!("C07/ccitt-{}-wrong-length", KMODES[mode]),
+                    (Ok(Ok(_)), _) => format!("C07/ccitt-{}-wrong-pixels", KMODES[mode]),
+                    (Ok(Err(_)), _) => format!("C07/ccitt-{}-rejects-reference-encoding", KMODES[mode]),
                 };
                 if !reported.contains(&key) {
                     reported.push(key.clone());
@@ -635,10 +635,7 @@ fn dict_forms(rep: &mut Report) {
         let cl = classify(&got, &data);
         c.outcome(vx::h64(&(cl, vx::hbytes(&data))));
         if cl != Class::Match {
-            let key = match a85_known_signature(&raw, &got) {
-                Some(k) if f == F::A85 => k.to_string(),
-                _ => format!("{}-{}", generic_key(f.short(), &got), if array_form { "array-form" } else { "with-default-parms" }),
-            };
+            let key = if is_lt_defect(&[f], &raw, &got) { KEY_A85_LT.to_string() } else { format!("{}-{}", generic_key(f.short(), &got), if array_form { "array-form" } else { "with-default-parms" }) };
             c.fail(key, format!("filter={} array_form={array_form} parms={parms:?} data={} got={}", f.short(), vx::hex(&data[..data.len().min(16)]), short_err(&got)));
         }
         c.sample(json!({"filter": f.short(), "array_form": array_form, "parms": format!("{parms:?}"), "data_len": data.len()}));
